@@ -15,3 +15,11 @@ func init() {
 		NotCovered: "native methods reached only through included mixins or through containers the analysis does not resolve (counted in the evidence, not decided); parameter and return *types* (see C01/C02 rules); thrown-error classes; semantic correctness of results.",
 	}
 }
+
+func init() {
+	props["C06"] = &PropSpec{
+		Rules:      []string{"bigint/truncdiv", "bigint/nomutate", "bigint/normalise"},
+		Decides:    "three representation-independence conditions of Int arithmetic: (1) no Euclidean big.Int division/modulo anywhere in the runtime, so big and small operands divide the same way; (2) no math/big operation writes into the storage of an existing Int (Int values are shared by reference, so this would change other variables); (3) every *BigInt returned from Int arithmetic sits on the failing branch of a fits-in-SmallInt test, so an integer has one representation.",
+		NotCovered: "the arithmetic correctness of the overflow predicates (AddOverflow, MultiplyOverflow, ...) and of math/big themselves: these depend on operand values, not on the shape of the code.",
+	}
+}
